@@ -760,6 +760,14 @@ func (r *runner) targetAddress(op Op) (btcutil.Address, error) {
 	return btcutil.DecodeAddress(str, params)
 }
 
+// useAndWipe: what a caller does with a private key it was given - read the
+// scalar, then zero the object (btcec.PrivateKey.Zero, as signing code does).
+func useAndWipe(pk *btcec.PrivateKey) []byte {
+	d := pk.Serialize()
+	pk.Zero()
+	return d
+}
+
 func fmtOfType(t waddrmgr.AddressType) string {
 	switch t {
 	case waddrmgr.PubKeyHash:
@@ -815,10 +823,26 @@ func (r *runner) observe(ma waddrmgr.ManagedAddress) AddrObs {
 			break
 		}
 		// "The wallet can sign for it": everything below is computed by the
-		// oracle from the 32 bytes the wallet returned.
-		d := pk.Serialize()
+		// oracle from the 32 bytes the wallet returned.  The key is then treated the
+		// way callers treat private keys - wiped after use - and asked for again
+		// (PrivKey() and ExportPrivKey()): a returned key is a value; if it aliases
+		// anything the wallet keeps, the next answer is wrong.
+		d := useAndWipe(pk)
 		own := hdoracle.PubOfScalar(d)
+		again := ""
+		if pk2, err2 := a.PrivKey(); err2 != nil {
+			again = "a second PrivKey() fails (" + classify(err2) + ") after the caller wiped the first key"
+		} else if d2 := useAndWipe(pk2); string(d2) != string(d) {
+			again = "a second PrivKey(), after the caller wiped the first key, returns another key"
+		} else if wif, err3 := a.ExportPrivKey(); err3 != nil {
+			again = "ExportPrivKey() fails (" + classify(err3) + ") where PrivKey() succeeds"
+		} else if d3 := useAndWipe(wif.PrivKey); string(d3) != string(d) || wif.CompressPubKey != ob.Compressed {
+			again = "ExportPrivKey() returns another key or compression flag than PrivKey()/Compressed()"
+		}
 		switch {
+		case again != "":
+			ob.Priv = "mismatch"
+			ob.Sign = again
 		case string(own[:]) != string(pub):
 			ob.Priv = "mismatch"
 			ob.Sign = "the returned private key is not the key of PubKey()"
@@ -1436,15 +1460,38 @@ func (r *runner) step(op Op) Result {
 		}
 		kp := waddrmgr.DerivationPath{InternalAccount: op.Account, Account: op.AcctChild, Branch: op.Branch, Index: op.Index,
 			MasterKeyFingerprint: op.Fp}
-		var pk *btcec.PrivateKey
-		func() {
-			defer func() {
-				if rc := recover(); rc != nil {
-					err = panicErr{rc}
-				}
+		// miss, hit, hit: every answer is used and wiped by the caller before the
+		// next call; all three must be the key of the requested path
+		var d []byte
+		repeat := ""
+		for call := 0; call < 3; call++ {
+			var pk *btcec.PrivateKey
+			var cerr error
+			func() {
+				defer func() {
+					if rc := recover(); rc != nil {
+						cerr = panicErr{rc}
+					}
+				}()
+				pk, cerr = sm.DeriveFromKeyPathCache(kp)
 			}()
-			pk, err = sm.DeriveFromKeyPathCache(kp)
-		}()
+			if call == 0 {
+				err = cerr
+				if err != nil {
+					break
+				}
+				d = useAndWipe(pk)
+				continue
+			}
+			if cerr != nil {
+				repeat = fmt.Sprintf("call %d fails (%s) after call 1 succeeded", call+1, classify(cerr))
+				break
+			}
+			if dn := useAndWipe(pk); string(dn) != string(d) {
+				repeat = fmt.Sprintf("call %d returns another key (%x...) than call 1 after the caller wiped the earlier answers", call+1, dn[:4])
+				break
+			}
+		}
 		if err != nil {
 			res = errResult(err)
 			if res.Err == "panic" {
@@ -1452,7 +1499,9 @@ func (r *runner) step(op Op) Result {
 			}
 			break
 		}
-		d := pk.Serialize()
+		if repeat != "" {
+			r.violate("privkey_mismatch", site, fmt.Sprintf("DeriveFromKeyPathCache %v/%d/%d/%d: %s", op.Scope, op.Account, op.Branch, op.Index, repeat))
+		}
 		own := hdoracle.PubOfScalar(d)
 		if sp := r.accts[op.Scope][op.Account]; sp != nil && sp.root == "seed" {
 			r.o.ensureChild(r.in.Seed, op.Scope, op.Account, op.Branch, op.Index)
@@ -1626,7 +1675,7 @@ func (r *runner) step(op Op) Result {
 		if err != nil {
 			res = errResult(err)
 		} else {
-			own := hdoracle.PubOfScalar(pk.Serialize())
+			own := hdoracle.PubOfScalar(useAndWipe(pk))
 			ref, ent := r.o.ref(own[:])
 			if ent != nil && ent.Root == "imp" && impCompressed(int(ent.ID)) != ob.Compressed {
 				ref = KeyRef{Root: "unknown", Path: [][2]uint32{}}
